@@ -25,7 +25,7 @@ func (Driver) Info() core.Info {
 			"strings that do / do not parse as numbers and bools; capsule values with and without conversion callbacks). Targets: derived from the value's own type by 1..3 node-level derivations at random positions " +
 			"(list/set/tuple and map/object kind changes, primitive changes, dropped / added-optional / added-required / marked-optional attributes incl. nested optional object types, placeholders, capsule targets, unrelated parts), " +
 			"the own type, unrelated types, a few fixed targets. Every case runs GetConversion, GetConversionUnsafe, Convert, both returned conversions, a second Convert of the result, the inverse Convert for lossless pairs, and the " +
-			"conversion obtained for a dynamic source; half of the cases are pairs (known value, admitting weakening of it) converted to the same target and compared with mon.Admits. " +
+			"conversion obtained for a dynamic source, every member of a compound result against the conversion of that member alone, and (half of the offered pairs) each returned conversion function on 3 values in sequence plus the first again against freshly obtained functions; half of the cases are pairs (known value, admitting weakening of it) converted to the same target and compared with mon.Admits. " +
 			"Plus: every ordered pair of a fixed 47-type pool x 5..8 fixed values per source type (exhaustive), every tuple/object type of 2..3 members from a 21-type pool against 7 collection targets with placeholder element types (exhaustive; known value next to the unknown value of the type), a fixed catalogue x every single-position weakening, and a corpus with the witnesses of F-29..F-32. " +
 			"distinct = hash of (value, target); non-trivial = a conversion to a type other than the value's own was offered and succeeded",
 		Assumptions: []string{
@@ -279,6 +279,7 @@ func checkPair(c *core.Ctx, r *core.Rand, v cty.Value, Tn *m.TNode, label string
 		res := out.val
 		ru, _ := res.Unmark()
 		rt := m.TNodeOf(ru.Type())
+		checkMemberwise(c, v, S, Tn, res, desc, cls)
 		// --- idempotence
 		var res2 cty.Value
 		var err2 error
@@ -418,6 +419,24 @@ func checkPair(c *core.Ctx, r *core.Rand, v cty.Value, Tn *m.TNode, label string
 			c.Violate(siteUnsafe, "panic: "+core.PanicClass(os.PanicMsg), cls+" applied", desc(), os.PanicMsg+"\n"+os.Stack)
 		} else {
 			checkResult(c, siteUnsafe, v, S, Tn, rs, es, desc, cls, true)
+		}
+	}
+	// --- results do not depend on earlier calls of the same conversion function
+	if r != nil && (safe != nil || unsafe != nil) && !m.HasDynamic(S) && !hasOwnCapsule(S) && r.Chance(1, 2) {
+		vals := []cty.Value{v}
+		for k := 0; k < 2; k++ {
+			vo := gen.ValueOpts{MaxLen: 3, Refined: true, NullPct: []int{0, 0, 10}[r.Intn(3)], UnknownPct: []int{0, 0, 10}[r.Intn(3)], NoTopNull: true, NoTopUnk: true}
+			x := gen.Value(r, Sty, vo)
+			xu, _ := x.Unmark()
+			if m.TypeEq(m.TNodeOf(xu.Type()), S) {
+				vals = append(vals, x)
+			}
+		}
+		if unsafe != nil {
+			checkReuse(c, siteUnsafe, func() convert.Conversion { return convert.GetConversionUnsafe(Sty, T) }, vals, S, Tn, label)
+		}
+		if safe != nil {
+			checkReuse(c, siteSafe, func() convert.Conversion { return convert.GetConversion(Sty, T) }, vals, S, Tn, label)
 		}
 	}
 	// --- a conversion requested for a dynamic source accepts any value
